@@ -165,6 +165,10 @@ func jsonText(kind string, d *hDoc, rng *Rng) []byte {
 	if err != nil {
 		panic(err)
 	}
+	if rng.Chance(1, 6) {
+		// duplicate members: encoding/json keeps the last one, which is the real one
+		b = append([]byte(`{"version":"0.9","trustPolicies":[],`), b[1:]...)
+	}
 	return b
 }
 
@@ -268,8 +272,62 @@ func guarded(f func() error) (cls string, panicked string) {
 	return classify(f()), ""
 }
 
+// history family: the struct route validates these instances, overwritten in place
+var (
+	useInst  bool
+	instOCI  *trustpolicy.OCIDocument
+	instBlob *trustpolicy.BlobDocument
+)
+
+// emptyNotNil turns nil slices and maps of a document into empty ones.
+func emptyNotNilOCI(doc *trustpolicy.OCIDocument) {
+	if doc == nil {
+		return
+	}
+	if doc.TrustPolicies == nil {
+		doc.TrustPolicies = []trustpolicy.OCITrustPolicy{}
+	}
+	for i := range doc.TrustPolicies {
+		t := &doc.TrustPolicies[i]
+		if t.TrustStores == nil {
+			t.TrustStores = []string{}
+		}
+		if t.TrustedIdentities == nil {
+			t.TrustedIdentities = []string{}
+		}
+		if t.RegistryScopes == nil {
+			t.RegistryScopes = []string{}
+		}
+		if t.SignatureVerification.Override == nil {
+			t.SignatureVerification.Override = map[trustpolicy.ValidationType]trustpolicy.ValidationAction{}
+		}
+	}
+}
+
+func emptyNotNilBlob(doc *trustpolicy.BlobDocument) {
+	if doc == nil {
+		return
+	}
+	if doc.TrustPolicies == nil {
+		doc.TrustPolicies = []trustpolicy.BlobTrustPolicy{}
+	}
+	for i := range doc.TrustPolicies {
+		t := &doc.TrustPolicies[i]
+		if t.TrustStores == nil {
+			t.TrustStores = []string{}
+		}
+		if t.TrustedIdentities == nil {
+			t.TrustedIdentities = []string{}
+		}
+		if t.SignatureVerification.Override == nil {
+			t.SignatureVerification.Override = map[trustpolicy.ValidationType]trustpolicy.ValidationAction{}
+		}
+	}
+}
+
 func observe(kind string, d, other *hDoc, jsonRng *Rng) (c09Obs, string, []byte) {
 	var o c09Obs
+	en := jsonRng.Chance(1, 3) // empty instead of nil on the struct route
 	var lv []string
 	note := func(p string) {
 		if p != "" && o.Panic == "" {
@@ -280,6 +338,13 @@ func observe(kind string, d, other *hDoc, jsonRng *Rng) (c09Obs, string, []byte)
 	text := jsonText(kind, d, jsonRng)
 	if kind == "oci" {
 		doc := toOCI(d)
+		if en {
+			emptyNotNilOCI(doc)
+		}
+		if useInst && doc != nil {
+			*instOCI = *doc
+			doc = instOCI
+		}
 		o.Val, p = guarded(func() error { return doc.Validate() })
 		note(p)
 		if o.Val == "EOk" {
@@ -298,6 +363,13 @@ func observe(kind string, d, other *hDoc, jsonRng *Rng) (c09Obs, string, []byte)
 		}
 	} else {
 		doc := toBlob(d)
+		if en {
+			emptyNotNilBlob(doc)
+		}
+		if useInst && doc != nil {
+			*instBlob = *doc
+			doc = instBlob
+		}
 		o.Val, p = guarded(func() error { return doc.Validate() })
 		note(p)
 		if o.Val == "EOk" {
@@ -513,9 +585,10 @@ func makeNonSkip(s *hStmt, rng *Rng) {
 	}
 }
 
-func genValid(kind string, rng *Rng) *hDoc {
+func genValid(kind string, rng *Rng) *hDoc { return genValidN(kind, rng, 1+rng.Intn(3)) }
+
+func genValidN(kind string, rng *Rng, n int) *hDoc {
 	d := &hDoc{Version: "1.0"}
-	n := 1 + rng.Intn(3)
 	names := append([]string{}, pNames...)
 	Shuffle(rng, names)
 	scopes := append([]string{}, pScopes...)
@@ -562,11 +635,53 @@ type edit struct {
 	f    func(d *hDoc, rng *Rng) bool
 }
 
+// ctl makes the choices of an edit operator systematic (single-edit stream):
+// which pool item, which statement (first / middle / last) and where in a
+// list (front / middle / end) the odd element goes.
+type ctl struct{ item, stmt, pos int }
+
+var force *ctl
+
+func pk(rng *Rng, pool []string) string {
+	if force != nil {
+		return pool[force.item%len(pool)]
+	}
+	return Pick(rng, pool)
+}
+
+func pkKV(rng *Rng, pool [][2]string) [2]string {
+	if force != nil {
+		return pool[force.item%len(pool)]
+	}
+	return Pick(rng, pool)
+}
+
 func anyStmt(d *hDoc, rng *Rng) *hStmt {
 	if len(d.Stmts) == 0 {
 		return nil
 	}
+	if force != nil {
+		return &d.Stmts[force.stmt%len(d.Stmts)]
+	}
 	return &d.Stmts[rng.Intn(len(d.Stmts))]
+}
+
+// pair chooses two different statements (ordered): systematically all ordered
+// pairs in the single-edit stream.
+func pair(d *hDoc, rng *Rng) (int, int) {
+	n := len(d.Stmts)
+	if force != nil {
+		k := force.item % (n * (n - 1))
+		i := k / (n - 1)
+		j := k % (n - 1)
+		if j >= i {
+			j++
+		}
+		return i, j
+	}
+	i := rng.Intn(n)
+	j := (i + 1 + rng.Intn(n-1)) % n
+	return i, j
 }
 
 func nonSkipStmt(d *hDoc, rng *Rng) *hStmt {
@@ -617,6 +732,16 @@ func addStmt(d *hDoc, rng *Rng) *hStmt {
 
 func insertAt(xs []string, x string, rng *Rng) []string {
 	i := rng.Intn(len(xs) + 1)
+	if force != nil {
+		switch force.pos % 3 {
+		case 0:
+			i = 0
+		case 1:
+			i = (len(xs) + 1) / 2
+		default:
+			i = len(xs)
+		}
+	}
 	out := append([]string{}, xs[:i]...)
 	out = append(out, x)
 	return append(out, xs[i:]...)
@@ -638,7 +763,7 @@ func ovEdit(name string, pool [][2]string) edit {
 		if s == nil {
 			return false
 		}
-		setOv(s, Pick(rng, pool))
+		setOv(s, pkKV(rng, pool))
 		return true
 	}}
 }
@@ -649,13 +774,39 @@ func storeEdit(name string, mk func(rng *Rng) string) edit {
 		if s == nil {
 			return false
 		}
-		if rng.Bool() {
+		if force != nil {
+			for len(s.Stores) < 2 {
+				s.Stores = append(s.Stores, Pick(rng, pStoreTy)+":"+Pick(rng, pStoreNm))
+			}
+			s.Stores = insertAt(s.Stores, mk(rng), rng)
+		} else if rng.Bool() {
 			s.Stores[rng.Intn(len(s.Stores))] = mk(rng)
 		} else {
 			s.Stores = insertAt(s.Stores, mk(rng), rng)
 		}
 		return true
 	}}
+}
+
+// padIds makes the identities two non-overlapping x509.subject identities.
+func padIds(s *hStmt, rng *Rng) {
+	if len(s.Ids) >= 2 && s.Ids[0] != "*" {
+		return
+	}
+	s.Ids = []string{renderDN(goodDN(rng, "pad-one"), rng), renderDN(goodDN(rng, "pad-two"), rng)}
+}
+
+// padScopes makes the scopes two valid scopes used nowhere else.
+func padScopes(d *hDoc, s *hStmt) {
+	if len(s.Scopes) >= 2 {
+		return
+	}
+	if len(s.Scopes) == 1 && s.Scopes[0] == "*" {
+		s.Scopes = nil
+	}
+	for len(s.Scopes) < 2 {
+		s.Scopes = append(s.Scopes, freshScope(d))
+	}
 }
 
 // idEdit puts a bad identity into a statement whose other identities are not the wildcard.
@@ -665,7 +816,10 @@ func idEdit(name string, mk func(rng *Rng) string) edit {
 		if s == nil {
 			return false
 		}
-		if len(s.Ids) == 1 && (s.Ids[0] == "*" || rng.Bool()) {
+		if force != nil {
+			padIds(s, rng)
+			s.Ids = insertAt(s.Ids, mk(rng), rng)
+		} else if len(s.Ids) == 1 && (s.Ids[0] == "*" || rng.Bool()) {
 			s.Ids = []string{mk(rng)}
 		} else {
 			s.Ids = insertAt(s.Ids, mk(rng), rng)
@@ -680,7 +834,10 @@ func scopeEdit(name string, mk func(rng *Rng) string) edit {
 		if s == nil {
 			return false
 		}
-		if len(s.Scopes) == 0 || (len(s.Scopes) == 1 && (s.Scopes[0] == "*" || rng.Bool())) {
+		if force != nil {
+			padScopes(d, s)
+			s.Scopes = insertAt(s.Scopes, mk(rng), rng)
+		} else if len(s.Scopes) == 0 || (len(s.Scopes) == 1 && (s.Scopes[0] == "*" || rng.Bool())) {
 			s.Scopes = []string{mk(rng)}
 		} else {
 			s.Scopes = insertAt(s.Scopes, mk(rng), rng)
@@ -692,7 +849,7 @@ func scopeEdit(name string, mk func(rng *Rng) string) edit {
 var edits = []edit{
 	{"version-empty", "", func(d *hDoc, rng *Rng) bool { d.Version = ""; return true }},
 	{"version-unsupported", "", func(d *hDoc, rng *Rng) bool {
-		d.Version = Pick(rng, []string{"1.1", "2.0", "1.0 ", "1", "v1.0", "1.0.0", "0.1"})
+		d.Version = pk(rng, []string{"1.1", "2.0", "1.0 ", "1", "v1.0", "1.0.0", "0.1", " 1.0", "1.00"})
 		return true
 	}},
 	{"zero-statements", "", func(d *hDoc, rng *Rng) bool { d.Stmts = nil; return true }},
@@ -703,8 +860,7 @@ var edits = []edit{
 		if len(d.Stmts) == 1 {
 			addStmt(d, rng)
 		}
-		i := rng.Intn(len(d.Stmts))
-		j := (i + 1 + rng.Intn(len(d.Stmts)-1)) % len(d.Stmts)
+		i, j := pair(d, rng)
 		d.Stmts[i].Name = d.Stmts[j].Name
 		return true
 	}},
@@ -729,7 +885,7 @@ var edits = []edit{
 		if s == nil {
 			return false
 		}
-		s.SV.Level = Pick(rng, pBadLevels)
+		s.SV.Level = pk(rng, pBadLevels)
 		return true
 	}},
 	{"override-on-skip", "", func(d *hDoc, rng *Rng) bool {
@@ -738,7 +894,7 @@ var edits = []edit{
 			return false
 		}
 		s.SV.Level, s.Stores, s.Ids, s.Global = "skip", nil, nil, false
-		s.SV.Ov = [][2]string{Pick(rng, pOvLegal)}
+		s.SV.Ov = [][2]string{pkKV(rng, pOvLegal)}
 		return true
 	}},
 	ovEdit("override-unknown-type", pOvBadType),
@@ -750,7 +906,7 @@ var edits = []edit{
 		if s == nil {
 			return false
 		}
-		s.SV.TS = Pick(rng, pBadTS)
+		s.SV.TS = pk(rng, pBadTS)
 		return true
 	}},
 	{"skip-with-stores", "", func(d *hDoc, rng *Rng) bool {
@@ -803,16 +959,18 @@ var edits = []edit{
 		s.Stores, s.Ids = nil, nil
 		return true
 	}},
-	storeEdit("store-malformed", func(rng *Rng) string { return Pick(rng, pBadStore) }),
-	storeEdit("store-bad-type", func(rng *Rng) string { return Pick(rng, pBadStTy) + ":" + Pick(rng, pStoreNm) }),
-	storeEdit("store-bad-name", func(rng *Rng) string { return Pick(rng, pStoreTy) + ":" + Pick(rng, pBadStNm) }),
-	storeEdit("store-dot-name", func(rng *Rng) string { return Pick(rng, pStoreTy) + ":" + Pick(rng, []string{".", ".."}) }),
+	storeEdit("store-malformed", func(rng *Rng) string { return pk(rng, pBadStore) }),
+	storeEdit("store-bad-type", func(rng *Rng) string { return pk(rng, pBadStTy) + ":" + Pick(rng, pStoreNm) }),
+	storeEdit("store-bad-name", func(rng *Rng) string { return Pick(rng, pStoreTy) + ":" + pk(rng, pBadStNm) }),
+	storeEdit("store-dot-name", func(rng *Rng) string { return Pick(rng, pStoreTy) + ":" + pk(rng, []string{".", ".."}) }),
 	{"wildcard-identity-mixed", "", func(d *hDoc, rng *Rng) bool {
 		s := nonSkipStmt(d, rng)
 		if s == nil {
 			return false
 		}
-		if len(s.Ids) == 1 && s.Ids[0] == "*" {
+		if force != nil {
+			padIds(s, rng)
+		} else if len(s.Ids) == 1 && s.Ids[0] == "*" {
 			s.Ids = []string{renderDN(goodDN(rng, Pick(rng, dnO)), rng)}
 		}
 		s.Ids = insertAt(s.Ids, "*", rng)
@@ -820,13 +978,13 @@ var edits = []edit{
 	}},
 	idEdit("identity-empty", func(rng *Rng) string { return "" }),
 	idEdit("identity-no-separator", func(rng *Rng) string {
-		return Pick(rng, []string{"nosep", "x509.subject", "C=US,ST=WA,O=x", "x509.subject;C=US", "**", " "})
+		return pk(rng, []string{"nosep", "x509.subject", "C=US,ST=WA,O=x", "x509.subject;C=US", "**", " "})
 	}),
 	idEdit("identity-no-value", func(rng *Rng) string { return "x509.subject:" }),
-	idEdit("identity-bad-dn", func(rng *Rng) string { return "x509.subject:" + Pick(rng, pBadDN) }),
+	idEdit("identity-bad-dn", func(rng *Rng) string { return "x509.subject:" + pk(rng, pBadDN) }),
 	idEdit("identity-dn-missing-mandatory", func(rng *Rng) string {
 		a := goodDN(rng, Pick(rng, dnO))
-		drop := Pick(rng, []string{"C", "ST", "O"})
+		drop := pk(rng, []string{"C", "ST", "O"})
 		var b []dnAttr
 		for _, x := range a {
 			if x.k != drop {
@@ -852,6 +1010,25 @@ var edits = []edit{
 			other = append(other, dnAttr{"CN", "x"}, dnAttr{"OU", "y"})
 		}
 		a, b := renderDN(base, rng), renderDN(other, rng)
+		if force != nil {
+			// narrower / broader identity and an unrelated one in every order
+			base = []dnAttr{{"C", "US"}, {"ST", "WA"}, {"O", "overlap-org"}}
+			other = append([]dnAttr{}, base...)
+			switch (force.item / 6) % 3 {
+			case 0:
+				Shuffle(rng, other)
+			case 1:
+				other = append(other, Pick(rng, dnX))
+			default:
+				other = append([]dnAttr{{"CN", "x"}, {"OU", "y"}}, other...)
+			}
+			c := renderDN(goodDN(rng, "unrelated-org"), rng)
+			three := []string{renderDN(base, rng), renderDN(other, rng), c}
+			perms := [][3]int{{0, 1, 2}, {0, 2, 1}, {1, 0, 2}, {1, 2, 0}, {2, 0, 1}, {2, 1, 0}}
+			pm := perms[force.item%6]
+			s.Ids = []string{three[pm[0]], three[pm[1]], three[pm[2]]}
+			return true
+		}
 		if rng.Bool() {
 			a, b = b, a
 		}
@@ -870,8 +1047,8 @@ var edits = []edit{
 		s.Scopes = nil
 		return true
 	}},
-	scopeEdit("scope-invalid", func(rng *Rng) string { return Pick(rng, pBadScopes) }),
-	scopeEdit("scope-with-wildcard", func(rng *Rng) string { return Pick(rng, pWildScopes) }),
+	scopeEdit("scope-invalid", func(rng *Rng) string { return pk(rng, pBadScopes) }),
+	scopeEdit("scope-with-wildcard", func(rng *Rng) string { return pk(rng, pWildScopes) }),
 	{"scope-duplicate-in-statement", "oci", func(d *hDoc, rng *Rng) bool {
 		s := anyStmt(d, rng)
 		if s == nil || len(s.Scopes) == 0 || s.Scopes[0] == "*" {
@@ -887,8 +1064,7 @@ var edits = []edit{
 		if len(d.Stmts) == 1 {
 			addStmt(d, rng)
 		}
-		i := rng.Intn(len(d.Stmts))
-		j := (i + 1 + rng.Intn(len(d.Stmts)-1)) % len(d.Stmts)
+		i, j := pair(d, rng)
 		if len(d.Stmts[j].Scopes) == 0 {
 			return false
 		}
@@ -907,8 +1083,7 @@ var edits = []edit{
 		if len(d.Stmts) == 1 {
 			addStmt(d, rng)
 		}
-		i := rng.Intn(len(d.Stmts))
-		j := (i + 1 + rng.Intn(len(d.Stmts)-1)) % len(d.Stmts)
+		i, j := pair(d, rng)
 		d.Stmts[i].Scopes, d.Stmts[j].Scopes = []string{"*"}, []string{"*"}
 		return true
 	}},
@@ -919,6 +1094,9 @@ var edits = []edit{
 		}
 		if len(s.Scopes) == 0 || s.Scopes[0] == "*" {
 			s.Scopes = []string{freshScope(d)}
+		}
+		if force != nil {
+			padScopes(d, s)
 		}
 		for _, t := range d.Stmts { // keep "*" unique in the document
 			if len(t.Scopes) == 1 && t.Scopes[0] == "*" {
@@ -935,8 +1113,7 @@ var edits = []edit{
 		if len(d.Stmts) == 1 {
 			addStmt(d, rng)
 		}
-		i := rng.Intn(len(d.Stmts))
-		j := (i + 1 + rng.Intn(len(d.Stmts)-1)) % len(d.Stmts)
+		i, j := pair(d, rng)
 		for k := range d.Stmts {
 			d.Stmts[k].Global = k == i || k == j
 		}
@@ -972,7 +1149,7 @@ var benign = []edit{
 		if s == nil || (len(s.Ids) == 1 && s.Ids[0] == "*") {
 			return false
 		}
-		s.Ids = insertAt(s.Ids, Pick(rng, pOtherIds), rng)
+		s.Ids = insertAt(s.Ids, pk(rng, pOtherIds), rng)
 		return true
 	}},
 	{"benign-dotty-store-name", "", func(d *hDoc, rng *Rng) bool {
@@ -980,7 +1157,7 @@ var benign = []edit{
 		if s == nil {
 			return false
 		}
-		s.Stores = insertAt(s.Stores, Pick(rng, pStoreTy)+":"+Pick(rng, []string{"...", ".a", "a.", "..a", "-", "_"}), rng)
+		s.Stores = insertAt(s.Stores, Pick(rng, pStoreTy)+":"+pk(rng, []string{"...", ".a", "a.", "..a", "-", "_"}), rng)
 		return true
 	}},
 	{"benign-same-store-twice", "", func(d *hDoc, rng *Rng) bool {
@@ -1174,7 +1351,7 @@ func runC09(a *Args) error {
 	rng := NewRng(a.Seed)
 	prelude := "From NV Require Import Base C09_Model.\nOpen Scope string_scope.\n"
 	w := NewCaseWriter(a, "C09", prelude, "case", "run")
-	w.Rule = "documents of both kinds drawn from a grammar of valid documents (1-3 statements; levels, legal overrides, verifyTimestamp, type:name stores, wildcard / x509.subject / foreign-prefix identities with varied DN spelling, unique scopes, at most one non-skip global statement) with 0, 1 or 2 rule-violating edits (one operator per rule, 39 operators) or a benign edit next to a rule boundary, plus randomly assembled documents and fixed regression documents; each is validated as a Go struct, validated after decoding JSON text written with literal member names, handed to NewVerifierWithOptions (sometimes together with a document of the other kind), and for accepted documents GetVerificationLevel of every statement is recorded. non-trivial = grammar stream (at most two edits) or random stream with at most two bad picks; distinct = distinct (kind, document, other document)"
+	w.Rule = "documents of both kinds drawn from a grammar of valid documents (1-3 statements; levels, legal overrides, verifyTimestamp, type:name stores, wildcard / x509.subject / foreign-prefix identities with varied DN spelling (S alias, spaces, ';', backslash and hex escapes), unique scopes, at most one non-skip global statement). Streams: (1) single-edit, systematic: 39 rule-violating and 7 benign operators x both kinds, three statements with the rule violated in the first / middle / last one, the odd element at the front / middle / end of its list, every item of the operator's pool, all ordered pairs for duplicates, narrower/broader/unrelated DN in every order; (2) history: ONE document instance per kind validated repeatedly while edited in place (valid, broken, repaired); (3) grammar with 0, 1 or 2 random edits; (4) randomly assembled documents; (5) fixed regression documents (F1, F11, spec examples, nil). Each document is validated as a Go struct (nil or empty slices/maps at random), validated after decoding JSON text written with literal member names (optional members omitted / empty / null at random, duplicate members sometimes), handed to NewVerifierWithOptions (sometimes together with a document of the other kind), and for accepted documents GetVerificationLevel of every statement is recorded. non-trivial = at most two edits, or random stream with at most two bad picks; distinct = distinct (kind, document, other document)"
 	w.Assumptions = []string{
 		"override maps have unique keys (Go map); identity strings are ASCII (limit of the byte-level model of go-ldap ParseDN, C04_DN); all strings are valid UTF-8 (JSON route)",
 		"error classes are recognised from stable phrases of the error texts; the four override-entry errors of GetVerificationLevel are one class (Go map iteration order)",
@@ -1262,25 +1439,50 @@ func runC09(a *Args) error {
 	}
 
 	// 1. every operator on every kind, several times (quick: the discriminating part)
-	per := 14
+	// systematic: three statements, the rule violated in the first / middle /
+	// last one, the odd element at the front / middle / end of its list, and
+	// every item of the operator's pool
+	per := 36
 	if a.Tier == "thorough" {
-		per = 150
+		per = 180
 	}
 	for _, kind := range kinds {
 		for _, e := range applicable(kind, append(append([]edit{}, edits...), benign...)) {
 			for r := 0; r < per; r++ {
-				d := genValid(kind, rng)
-				if !e.f(d, rng) {
+				d := genValidN(kind, rng, 3)
+				force = &ctl{item: r, stmt: r % 3, pos: (r / 3) % 3}
+				ok := e.f(d, rng)
+				force = nil
+				if !ok {
 					continue
 				}
 				emit(kind, "single-edit", []string{e.name}, d, otherDoc(kind), true)
 			}
 		}
 	}
-	// 2. 0, 1 or 2 edits
-	n := 1500
+	// history: ONE document instance per kind, validated again and again while
+	// it is edited in place (valid, broken, repaired, broken differently ...)
+	hist := 40
 	if a.Tier == "thorough" {
-		n = 60000
+		hist = 400
+	}
+	for _, kind := range kinds {
+		instOCI, instBlob = &trustpolicy.OCIDocument{}, &trustpolicy.BlobDocument{}
+		useInst = true
+		for h := 0; h < hist; h++ {
+			good := genValid(kind, rng)
+			emit(kind, "history", []string{"valid"}, good.clone(), nil, true)
+			bad := good.clone()
+			nm := apply(kind, bad, applicable(kind, edits))
+			emit(kind, "history", []string{nm}, bad, nil, true)
+			emit(kind, "history", []string{"repaired"}, good.clone(), nil, true)
+		}
+		useInst = false
+	}
+	// 2. 0, 1 or 2 edits
+	n := 1000
+	if a.Tier == "thorough" {
+		n = 40000
 	}
 	for i := 0; i < n; i++ {
 		kind := Pick(rng, kinds)
@@ -1308,9 +1510,9 @@ func runC09(a *Args) error {
 		emit(kind, "grammar", names, d, otherDoc(kind), true)
 	}
 	// 3. randomly assembled documents
-	m := 700
+	m := 500
 	if a.Tier == "thorough" {
-		m = 30000
+		m = 20000
 	}
 	for i := 0; i < m; i++ {
 		kind := Pick(rng, kinds)
